@@ -17,7 +17,7 @@ func init() {
 		in := fs.String("in", "", "TLC output file (PrintT JSON cases)")
 		out := fs.String("out", "", "result JSON")
 		modes := fs.String("modes", "ctl-unsafe,ctl-safe,sync", "source modes")
-		maxm := fs.Int("max", 5000, "maximum number of mismatches kept in detail")
+		maxm := fs.Int("max", 20000, "maximum number of mismatches kept in detail")
 		_ = fs.Parse(args)
 		ms := strings.Split(*modes, ",")
 		type job struct {
@@ -28,6 +28,7 @@ func init() {
 		var mu sync.Mutex
 		var all []pipe.Mismatch
 		byClass := map[string]int{}
+		perKey := map[string]int{}
 		nontrivial := 0
 		chains := map[string]bool{}
 		var samples []json.RawMessage
@@ -55,9 +56,12 @@ func init() {
 					mu.Lock()
 					for _, m := range res {
 						byClass[m.Class]++
-						if len(all) < *maxm {
+						key := m.Class + "@" + m.Chain + "@" + m.Mode
+						perKey[key]++
+						// the detailed list keeps a few examples of EVERY (class, chain, mode), so that a flood of one kind cannot hide another
+						if perKey[key] <= 6 && len(all) < *maxm {
 							all = append(all, m)
-							if len(raw) < 200 {
+							if len(raw) < 2000 {
 								raw[m.Case] = json.RawMessage(j.c.Raw)
 							}
 						}
